@@ -1,11 +1,36 @@
-from jsim.envs.base import Adapter
+"""Cleaner: rules written from docs/environments/cleaner.md and the class docstring.
+
+Grid of num_rows x num_cols tiles: dirty (0), clean (1) or wall (2). `agents_locations[i] = (row, col)`;
+all agents start on the (clean) top-left tile. Each agent plays 0..3 = up, right, down, left. A move is
+legal for an agent iff the tile it leads to is inside the grid and not a wall. Every tile an agent
+visits is cleaned. The reward is shared: number of tiles cleaned during the step minus
+`penalty_per_timestep` (0.5 by default). The episode ends when all tiles are clean, at the time
+limit, or when any agent plays an invalid action ("the corresponding agent does not move and the
+episode terminates"; the other agents' valid moves are still carried out).
+"""
+from __future__ import annotations
+
+from typing import Any, List, Optional, Tuple
+
+import numpy as np
+
 from jsim.envs._mk import cfg, cross_tl
+from jsim.envs.base import Adapter, bfs_path
+
+DELTA = [(-1, 0), (0, 1), (1, 0), (0, -1)]  # up, right, down, left
+DIRTY, CLEAN, WALL = 0, 1, 2
 
 
 class A(Adapter):
     name = "Cleaner"
     mask_mode = "per_agent"
     terminate_on_invalid = True
+    has_invalid_effect = True
+    has_physical = True
+    has_objective = True
+    objective_without_end = True
+    has_model = True
+    has_observer = True
 
     def configs(self):
         base = [cfg("r10c10a3", True, r=10, c=10, a=3, tl=None), cfg("r5c11a2", True, r=5, c=11, a=2, tl=None),
@@ -20,3 +45,184 @@ class A(Adapter):
 
     def time_limit(self, env, c):
         return c["r"] * c["c"] if c.get("tl") is None else c["tl"]
+
+    @staticmethod
+    def _penalty(cfg: Any) -> float:
+        return float(cfg.get("penalty", 0.5))  # build() keeps the documented default
+
+    # ---- rules ---------------------------------------------------------------------------------
+    @staticmethod
+    def _locs(s: Any) -> List[Tuple[int, int]]:
+        return [(int(r), int(c)) for r, c in np.asarray(s.agents_locations)]
+
+    @staticmethod
+    def _open(grid: np.ndarray, r: int, c: int) -> bool:
+        R, C = grid.shape
+        return 0 <= r < R and 0 <= c < C and int(grid[r, c]) != WALL
+
+    def legal(self, s: Any, env: Any) -> np.ndarray:
+        grid = np.asarray(s.grid)
+        locs = self._locs(s)
+        out = np.zeros((len(locs), 4), bool)
+        for i, (r, c) in enumerate(locs):
+            for a, (dr, dc) in enumerate(DELTA):
+                out[i, a] = self._open(grid, r + dr, c + dc)
+        return out
+
+    def describe(self, s, env, idx):
+        i, a = int(idx[0]), int(idx[1])
+        r, c = self._locs(s)[i]
+        grid = np.asarray(s.grid)
+        return (f"agent {i} at {(r, c)} action {a} -> {(r + DELTA[a][0], c + DELTA[a][1])} on a {grid.shape[0]}x{grid.shape[1]} grid; "
+                f"grid=\n{grid}")
+
+    def _predict(self, ps: Any, action: Any) -> Tuple[List[Tuple[int, int]], np.ndarray, int, List[int]]:
+        """Documented step: valid agents move, invalid agents stay, visited tiles become clean.
+        Returns (locations, grid, number of tiles cleaned, indices of the invalid agents)."""
+        grid = np.asarray(ps.grid)
+        legal = self.legal(ps, None)
+        new, invalid = [], []
+        for i, (r, c) in enumerate(self._locs(ps)):
+            a = int(action[i])
+            if legal[i, a]:
+                new.append((r + DELTA[a][0], c + DELTA[a][1]))
+            else:
+                new.append((r, c))
+                invalid.append(i)
+        g = grid.copy()
+        R, C = g.shape
+        cleaned = 0
+        for r, c in new:
+            if 0 <= r < R and 0 <= c < C and g[r, c] == DIRTY:
+                g[r, c] = CLEAN
+                cleaned += 1
+        return new, g, cleaned, invalid
+
+    # ---- C05 (terminate-on-invalid) ----------------------------------------------------------------
+    def invalid_effect(self, ps, action, illegal, s, ts, env, cfg):
+        new, g, cleaned, invalid = self._predict(ps, action)
+        if not invalid:
+            return None  # nothing illegal by the rules in this joint action
+        if int(ts.step_type) != 2:
+            return ("invalid_move_not_terminal", f"step_type {int(ts.step_type)} although agent(s) {invalid} played an invalid action "
+                    f"(locations {self._locs(ps)}, action {np.asarray(action).tolist()})")
+        want = cleaned - self._penalty(cfg)
+        if not np.isclose(float(ts.reward), want, rtol=1e-5, atol=1e-6):
+            return ("invalid_move_reward", f"reward {float(ts.reward)} expected {want} (= {cleaned} tiles cleaned - penalty)")
+        got = self._locs(s)
+        for i in invalid:
+            if got[i] != new[i]:
+                return ("invalid_agent_moved", f"agent {i} played the invalid action {int(action[i])} and moved {new[i]} -> {got[i]}")
+        if got != new:
+            return ("valid_move_not_applied", f"locations {got} expected {new} (invalid agents {invalid} stay, the others move)")
+        if not np.array_equal(np.asarray(s.grid), g):
+            k = np.argwhere(np.asarray(s.grid) != g)[0].tolist()
+            return ("invalid_move_grid", f"grid differs from the documented effect at {k}: {int(np.asarray(s.grid)[tuple(k)])} expected {int(g[tuple(k)])}")
+        return None
+
+    # ---- C07 -------------------------------------------------------------------------------------
+    def physical(self, ps, action, s, ts, env, cfg):
+        grid = np.asarray(s.grid)
+        R, C = grid.shape
+        for i, (r, c) in enumerate(self._locs(s)):
+            if not (0 <= r < R and 0 <= c < C):
+                return ("agent_outside_grid", f"agent {i} at {(r, c)} is outside the {R}x{C} grid")
+            if grid[r, c] == WALL:
+                return ("agent_on_wall", f"agent {i} at {(r, c)} stands on a wall")
+            if grid[r, c] != CLEAN:
+                return ("agent_tile_not_clean", f"agent {i} at {(r, c)} stands on a tile with value {int(grid[r, c])}")
+        if ps is not None and not np.array_equal(np.asarray(ps.grid) == WALL, grid == WALL):
+            return ("walls_changed", "the set of wall tiles changed during a step")
+        return None
+
+    # ---- C08 -------------------------------------------------------------------------------------
+    def objective(self, hist, env, cfg):
+        g0, g1 = np.asarray(hist[0].state.grid), np.asarray(hist[-1].state.grid)
+        cleaned = int(((g0 == DIRTY) & (g1 == CLEAN)).sum())
+        steps = sum(1 for r in hist[1:] if not r.post_terminal)
+        return float(cleaned) - self._penalty(cfg) * steps
+
+    # ---- C09 -------------------------------------------------------------------------------------
+    def model_step(self, ps, action, s, ts, env, cfg):
+        new, g, cleaned, invalid = self._predict(ps, action)
+        sc = int(ps.step_count) + 1
+        want = cleaned - self._penalty(cfg)
+        if not np.isclose(float(ts.reward), want, rtol=1e-5, atol=1e-6):
+            return ("reward", f"reward {float(ts.reward)} expected {want} ({cleaned} tiles cleaned, invalid agents {invalid})")
+        tl = self.time_limit(env, cfg)
+        if invalid:
+            done = True  # the successor state after an invalid action is judged by C05, not here
+        else:
+            if int(s.step_count) != sc:
+                return ("step_count", f"step_count {int(s.step_count)} expected {sc}")
+            if self._locs(s) != new:
+                return ("agents_locations", f"locations {self._locs(s)} expected {new} (from {self._locs(ps)}, action {np.asarray(action).tolist()})")
+            if not np.array_equal(np.asarray(s.grid), g):
+                k = np.argwhere(np.asarray(s.grid) != g)[0].tolist()
+                return ("grid", f"grid at {k} is {int(np.asarray(s.grid)[tuple(k)])} expected {int(g[tuple(k)])}")
+            done = not bool((g == DIRTY).any()) or sc >= tl
+        if (int(ts.step_type) == 2) != done:
+            return ("termination", f"step_type {int(ts.step_type)} but the rules say done={done} (invalid agents {invalid}, "
+                    f"dirty left {int((g == DIRTY).sum())}, step {sc}/{tl}, locations {self._locs(ps)}, action {np.asarray(action).tolist()})")
+        return None
+
+    # ---- C11 -------------------------------------------------------------------------------------
+    def end_cause(self, ps, action, s, ts, env, cfg):
+        legal = self.legal(ps, env)
+        if any(not legal[i, int(a)] for i, a in enumerate(action)):
+            return "invalid_action"
+        if not bool((np.asarray(s.grid) == DIRTY).any()):
+            return "all_clean"
+        return None
+
+    # ---- C12 -------------------------------------------------------------------------------------
+    def observe(self, s, obs, env, cfg):
+        if not np.array_equal(np.asarray(obs.grid), np.asarray(s.grid)):
+            return ("grid", "obs.grid != state.grid")
+        if not np.array_equal(np.asarray(obs.agents_locations), np.asarray(s.agents_locations)):
+            return ("agents_locations", f"obs {np.asarray(obs.agents_locations).tolist()} vs state {np.asarray(s.agents_locations).tolist()}")
+        if not np.array_equal(np.asarray(obs.action_mask), np.asarray(s.action_mask)):
+            return ("action_mask", "obs.action_mask != state.action_mask")
+        if int(obs.step_count) != int(s.step_count):
+            return ("step_count", f"obs {int(obs.step_count)} vs state {int(s.step_count)}")
+        return None
+
+    # ---- policies ----------------------------------------------------------------------------------
+    def policy_survive(self, s, env, rng, legal):
+        """Oscillate between clean tiles: legal moves only, onto an already clean tile whenever there is one
+        (all agents prefer the same direction so that at most one tile is cleaned at the start)."""
+        grid = np.asarray(s.grid)
+        mine = self.legal(s, env)
+        out = []
+        for i, (r, c) in enumerate(self._locs(s)):
+            opts = [a for a in range(4) if mine[i, a]]
+            clean = [a for a in opts if grid[r + DELTA[a][0], c + DELTA[a][1]] == CLEAN]
+            if clean:
+                out.append(clean[0])
+            elif opts:
+                out.append(opts[0])
+            else:
+                out.append(0)
+        return out
+
+    def policy_complete(self, s, env, rng, legal):
+        """Each agent walks (BFS over non-wall tiles) to the nearest dirty tile not already claimed by a lower agent."""
+        grid = np.asarray(s.grid)
+        R, C = grid.shape
+        free = grid != WALL
+        mine = self.legal(s, env)
+        claimed: set = set()
+        out = []
+        for i, (r, c) in enumerate(self._locs(s)):
+            path = None
+            if 0 <= r < R and 0 <= c < C:
+                path = bfs_path(free, (r, c), lambda cell: grid[cell] == DIRTY and cell not in claimed)
+                if path is None:
+                    path = bfs_path(free, (r, c), lambda cell: grid[cell] == DIRTY)
+            if path is not None and len(path) >= 2:
+                claimed.add(path[-1])
+                out.append(DELTA.index((path[1][0] - r, path[1][1] - c)))
+                continue
+            opts = np.flatnonzero(mine[i])
+            out.append(int(opts[int(rng.integers(0, len(opts)))]) if len(opts) else 0)
+        return out
